@@ -91,7 +91,7 @@ type DataInv struct {
 	Props  []string
 }
 
-var labelRe = regexp.MustCompile(`^\[([A-Za-z0-9_.\-]+)\]\s*`)
+var labelRe = regexp.MustCompile(`^\[([A-Za-z0-9_.\-]+)\]\s*`) // labels starting with local- are not exported to callers
 
 func parseClause(src, file string, line int) (Clause, error) {
 	c := Clause{File: file, Line: line}
